@@ -9,7 +9,7 @@ open Nuts Nuts.Model Nuts.Model.DB
 
 /-- list `[x, y]` in one segment, a KV record in a second one (Merge needs two files) -/
 def s0 : State :=
-  let a := (commit ({ opt := { seg := 100 }, opened := true } : State)
+  let a := (commit (openDB { seg := 100 } []).1
     [{ (mkRec [97] [97] [120] flagRPush dsList) with txid := 1 }, { (mkRec [97] [97] [121] flagRPush dsList) with txid := 1 }]).1
   (commit a [{ (mkRec [98] [107] [120] flagSet dsKV) with txid := 2 }]).1
 
@@ -31,5 +31,29 @@ theorem isFilter_removal (r : Rec) (now : Nat)
 theorem merge_needs_two_files (s : State) (now : Nat) (ids : List Nat) (h : s.files.length < 2) :
     merge s now ids = (s, .err) := by
   simp [merge, h]
+
+/-! ### Merge removes the active file when nothing is live (finding family D-MERGE) -/
+
+/-- three keys written over two segments and then deleted: every record on disk is dead -/
+def dead0 : State :=
+  let v : Bytes := List.replicate 40 120
+  let a := (commit (openDB { seg := 200 } []).1
+    [{ (mkRec [97] [107, 49] v flagSet dsKV) with txid := 1 }, { (mkRec [97] [107, 50] v flagSet dsKV) with txid := 1 },
+     { (mkRec [97] [107, 51] v flagSet dsKV) with txid := 1 }]).1
+  (commit a [{ (mkRec [97] [107, 49] [] flagDelete dsKV) with txid := 2 }, { (mkRec [97] [107, 50] [] flagDelete dsKV) with txid := 2 },
+             { (mkRec [97] [107, 51] [] flagDelete dsKV) with txid := 2 }]).1
+
+/-- the state after that Merge and one more committed `Put` -/
+def dead1 : State :=
+  (commit (merge dead0 0 []).1 [{ (mkRec [97] [107, 52] [122] flagSet dsKV) with txid := 3 }]).1
+
+/-- Witness (replayed on the implementation by corpus/D-MERGE-ACTIVE.ops): a Merge that finds nothing to
+rewrite removes every data file, the active one included; the transaction committed afterwards is in
+the index but in no file of the directory, and `Open` on that directory does not have the key. -/
+theorem C15_witness_active_file_removed :
+    dead0.files.length = 3 ∧ (merge dead0 0 []).2 = .ok () ∧ (merge dead0 0 []).1.files = [] ∧
+    ((aget? dead1.kv [97]).bind (aget? · [107, 52])).isSome = true ∧ dead1.files = [] ∧
+    ((aget? (openDB { seg := 200 } dead1.files).1.kv [97]).bind (aget? · [107, 52])).isSome = false := by
+  decide
 
 end NutsProofs.C15
